@@ -100,6 +100,56 @@ def run_fonts(report, n, rng):
     report.sample(dict(function="reorder_glyphs on synthetic fonts", lookup_types_and_formats=sorted(f"{t}/{f}" for t, f in seen if (t, f) in SCHEMA)))
 
 
+def _svg_records(font):
+    """name-keyed reading of an 'SVG ' table: for every document, the glyph names its glyph-id range covers and
+    the glyph names its <g id="glyphN"> elements name"""
+    import re
+
+    out = []
+    for doc in font["SVG "].docList:
+        text, start, end = (doc.data, doc.startGlyphID, doc.endGlyphID) if hasattr(doc, "data") else doc[:3]
+        covered = tuple(font.getGlyphName(g) for g in range(start, end + 1))
+        named = tuple(sorted(font.getGlyphName(int(n)) for n in re.findall(r'id="glyph(\d+)"', text)))
+        shapes = tuple(sorted(re.findall(r'id="glyph\d+"[^>]*><path d="([^"]*)"', text)))
+        out.append((covered, named, shapes))
+    return tuple(sorted(out))
+
+
+def run_svg_fonts(report, n, rng):
+    """a font that already carries an OT-SVG table: its documents are colour records keyed by glyph id (F21)"""
+    from fontTools.ttLib import newTable
+    from fontTools.ttLib.tables.S_V_G_ import SVGDocument
+    from nanoemoji.reorder_glyphs import reorder_glyphs
+    from harness import fontgen
+
+    base = fontgen.build_layout_font(with_colr=None)
+    order = base.getGlyphOrder()
+    svg = newTable("SVG ")
+    docs = []
+    for k, name in enumerate(("a", "e", "x")):
+        gid = base.getGlyphID(name)
+        docs.append((gid, f'<svg xmlns="http://www.w3.org/2000/svg"><g id="glyph{gid}"><path d="M{k},0 L10,{k} L0,10 Z" fill="red"/></g></svg>'))
+    svg.docList = [SVGDocument(text, gid, gid, False) for gid, text in sorted(docs)]
+    base["SVG "] = svg
+    base = fontgen.roundtrip(base)
+    before = _svg_records(base)
+    for i in range(n):
+        font = fontgen.roundtrip(base)
+        rest = order[1:]
+        rng.shuffle(rest)
+        new_order = [order[0]] + rest
+        reorder_glyphs(font, new_order)
+        after = fontgen.roundtrip(font)
+        report.count(("svgfont", tuple(new_order)), new_order != order)
+        report.hist("outlines", "glyf+SVG")
+        got = _svg_records(after)
+        if got != before:
+            case = dict(function="reorder_glyphs.reorder_glyphs + save + reload", table="SVG ", new_order=new_order,
+                        before=[list(map(list, r[:2])) for r in before], after=[list(map(list, r[:2])) for r in got])
+            report_failure(report, f"svgtable_{i}", dict(kind="property", case=case, note="the glyph names an OT-SVG document belongs to changed"), "F21-svg-table-not-reordered")
+            return
+
+
 def _first_diff(a, b, path="", depth=0):
     if type(a) != type(b) or not isinstance(a, tuple) or len(a) != len(b) or depth > 12:
         return dict(path=path, before=repr(a)[:300], after=repr(b)[:300])
@@ -117,13 +167,15 @@ def main(argv):
         "_sort_by_gid on random coverages/parallel arrays/gid maps (with duplicates, empty and absent parallel lists); "
         "real reorder_glyphs + save + reload on synthetic fonts containing every GSUB/GPOS/GDEF subtable type and format of "
         "the schema (feaLib + hand-built Context formats 1/2/3), with glyf composites or CFF / CFF2 charstrings (F19), hmtx, cmap and COLR v0/v1, under random "
-        "permutations keeping .notdef first; non-trivial = order actually changed"
+        "permutations keeping .notdef first; a font that already carries an OT-SVG table (documents keyed by glyph id, F21); non-trivial = order actually changed"
     )
     st = proof_gate(report)
     rng = random.Random(report.seed)
     if common.vo_ok("Corr/C11.v"):
         run_sort(report, 500 if tier == "quick" else 8000, rng)
     run_fonts(report, 6 if tier == "quick" else 120, rng)
+    if not report.violations:
+        run_svg_fonts(report, 3 if tier == "quick" else 40, rng)
     if not st["proof_ok"] and not report.violations:
         report.violation("proof", dict(kind="proof", theorem="Props/C11.v", detail=report.notes.get("proof_failure")), found_input=False)
     report.open_obligations = [
